@@ -433,7 +433,7 @@ pub fn run(env: &Env) -> i32 {
 
     // leg 1: generated fault-prone programs x histories x {handler, no handler}
     let prof = profile();
-    let hp = HistProfile { raw_choose: true, ..HistProfile::everything() };
+    let hp = HistProfile { raw_choose: true, eval_knots: true, ..HistProfile::everything() };
     let n1 = env.cases(12000, 400000);
     let r = run_cases(
         env,
